@@ -26,6 +26,6 @@ git apply "$OUT/patch.diff"
 # 4. my check against it
 if [ -n "$(git -C /repo status --porcelain)" ]; then echo "refusing: /repo is not clean"; exit 2; fi
 git -C /repo apply "$OUT/patch.diff" || { echo "patch does not apply to /repo"; exit 2; }
-cd /verif && ./check "$PROP" --tier quick > "$OUT/check_${PROP}_quick.txt" 2>&1; rc=$?
+cd "${VERIF_ROOT:-/verif}" && ./check "$PROP" --tier quick > "$OUT/check_${PROP}_quick.txt" 2>&1; rc=$?
 git -C /repo checkout -- .
 echo "check $PROP exit code with the seeded change: $rc"; grep -E "^VIOLATION|class=|\[quick\]" "$OUT/check_${PROP}_quick.txt" | head -8
